@@ -109,6 +109,7 @@ class World:
         lib_error = self.lib_error
 
         def mk(tn, fn):
+            fd_type = self.types[tn]["fields"][fn]["type"]
             kw = {}
             if "field_parent_conc" in cfg:
                 kw["parent_concurrently"] = cfg["field_parent_conc"]
@@ -122,6 +123,8 @@ class World:
                 cs = ctx.get("__cs") if isinstance(ctx, dict) and "__cs" in ctx else world.case
                 path = tuple(render.path_spec(info.path.as_list()))
                 cs.calls.append((path, world.ident(parent), dict(args), ctx))
+                if cs.adversary is not None:
+                    return cs.adversary.value(fd_type, list(path))
                 raw = cs.table.get(path)
                 if cs.gated:
                     fut = cs.loop.future()
@@ -165,6 +168,8 @@ class World:
             kw["custom_default_arguments_coercer"] = sync_arguments_coercer
         if "cache" in cfg:
             kw["query_cache_decorator"] = cfg["cache"]
+        if "coercer" in cfg:
+            kw["error_coercer"] = cfg["coercer"]
         eng = main_loop().run(t.create_engine(self.sdl, schema_name=sn, **kw))
         self.engines[key] = eng
         return eng
@@ -180,6 +185,7 @@ class CaseState:
         self.gates = {}
         self.started = []
         self.source = None
+        self.adversary = None
 
 
 def table_of(calls):
